@@ -83,6 +83,7 @@ def units(tier, seed):
                 out.append(dict(kind="spellings_all", platform=plat, a=i))
         for k in ([1, 2] if tier == "quick" else [1, 2, 3]):
             out.append(dict(kind="groups", platform=plat, k=k))
+        out.append(dict(kind="cross_text", platform=plat))
         out.append(dict(kind="items", platform=plat))
         out.append(dict(kind="items_ordered", platform=plat))
         out.append(dict(kind="relined", platform=plat))
@@ -118,6 +119,8 @@ def run_unit(unit, ctx):
         for b in adrs:
             for (ta, _), (tb, _) in product(a.spellings(unit["platform"]), b.spellings(unit["platform"])):
                 _pair(unit["platform"], a, b, ta, tb, ctx)
+    elif unit["kind"] == "cross_text":
+        _cross_text(unit["platform"], ctx)
     elif unit["kind"] == "groups":
         _groups(unit, ctx)
     elif unit["kind"] == "items_ordered":
@@ -223,6 +226,85 @@ def _group_case(platform, x, members, ctx):
     if want:
         ctx.out("group_member_in")
         ctx.nt((platform, sx, tuple(sm)))
+    # the candidate built for the OTHER platform ("A.B.C.D M.M.M.M" is a mask on IOS, a wildcard
+    # on NX-OS): an answer, if one is given, must be about the sets the two objects denote
+    other = "nxos" if platform == "ios" else "ios"
+    for text, cube in _foreign_candidates(x, other):
+        ctx.ev()
+        try:
+            got2 = AddressAg(text, platform=other) in grp
+        except (TypeError, ValueError):
+            ctx.out("cross_platform_in_refused")
+            continue
+        except Exception as ex:  # noqa
+            ctx.viol("member in AddrGroup:cross_platform_exception", dict(case, candidate=text), repr(ex),
+                     "bool or TypeError")
+            continue
+        want2 = any(S.cube_subset(cube, m.cubes[0]) for m in members)
+        if bool(got2) != want2:
+            ctx.viol("member in AddrGroup:cross_platform_wrong_answer",
+                     dict(case, candidate=text, candidate_platform=other), got2, want2)
+        else:
+            ctx.out("cross_platform_in_ok")
+
+
+def _cross_text(plat, ctx):
+    """The SAME text "A.B.C.D M.M.M.M" as member of a group on one platform and as candidate on
+    the other one (mask on IOS, wildcard bits on NX-OS): equal text is not equal meaning."""
+    from cisco_acl import AddrGroup, AddressAg
+
+    other = "nxos" if plat == "ios" else "ios"
+    head = "object-group network G" if plat == "ios" else "object-group ip address G"
+
+    def cube(platform, base, mask):
+        if platform == "ios":  # subnet + mask
+            return (base & mask, ~mask & S.ALL32)
+        return (base & ~mask & S.ALL32, mask)  # address + wildcard bits
+
+    for ln in range(1, 32):
+        mask = (S.ALL32 << (32 - ln)) & S.ALL32
+        for base in (0, G.window(ctx.seed) & mask, 0x0A000000 & mask):
+            text = f"{S.int2ip(base)} {S.int2ip(mask)}"
+            for extra in ([], ["host 10.255.255.1"]):
+                ctx.ev()
+                case = dict(kind="cross_text", platform=plat, text=text, length=ln, extra=extra)
+                try:
+                    grp = AddrGroup(head + "\n" + "\n".join(" " + t for t in [text] + extra), platform=plat)
+                    cand = AddressAg(text, platform=other)
+                except (ValueError, TypeError):
+                    ctx.out("cross_text_not_buildable")
+                    continue
+                try:
+                    got = cand in grp
+                except (TypeError, ValueError):
+                    ctx.out("cross_text_refused")
+                    continue
+                except Exception as ex:  # noqa
+                    ctx.viol("member in AddrGroup:cross_text_exception", case, repr(ex), "bool or TypeError")
+                    continue
+                want = S.cube_subset(cube(other, base, mask), cube(plat, base, mask))
+                if bool(got) != want:
+                    ctx.viol("member in AddrGroup:cross_text_wrong_answer", case, got, want)
+                else:
+                    ctx.out("cross_text_ok")
+    ctx.sample("cross_text", dict(platform=plat))
+
+
+def _foreign_candidates(x, other):
+    """Spellings of candidates on the other platform: the same set, and the text of the member
+    spelling of this platform re-read under the other platform's rules."""
+    out = []
+    sx = _ag_spelling(x, other)
+    if sx and not x.is_nc:
+        out.append((sx, x.cubes[0]))
+    (base, wild), = x.cubes
+    if wild and wild & (wild + 1) == 0 and wild != S.ALL32:
+        mask_text = f"{S.int2ip(base)} {S.int2ip(~wild & S.ALL32)}"
+        if other == "ios":
+            out.append((mask_text, (base, wild)))          # IOS reads A M as subnet + mask
+        else:
+            out.append((mask_text, (base & wild, ~wild & S.ALL32)))  # NX-OS reads A W as wildcard bits
+    return out
 
 
 def _groups(unit, ctx):
@@ -266,6 +348,16 @@ def _relined(unit, ctx):
             y.subnet_of(top)
             y.line = b.spellings(plat)[0][0]
             fourth = y.subnet_of(top)
+            # an Address born as a group reference WITH members, then re-pointed to a plain
+            # address: as bottom and as top it denotes the plain address now
+            ref = "object-group G" if plat == "ios" else "addrgroup G"
+            z = Address(ref, platform=plat, items=[a.spellings(plat)[0][0]])
+            z.subnet_of(top)
+            z.line = b.spellings(plat)[0][0]
+            fifth = z.subnet_of(top)
+            sixth = Address(m2.spellings(plat)[0][0], platform=plat).subnet_of(z)
+            from cisco_acl import functions as F
+            seventh = F.subnet_of(top=z, bottom=Address(m2.spellings(plat)[0][0], platform=plat))
         except Exception as ex:  # noqa
             ctx.viol("relined:exception", case, repr(ex), "answers")
             continue
@@ -273,7 +365,11 @@ def _relined(unit, ctx):
         want2 = any(S.cube_subset(b.cubes[0], m.cubes[0]) for m in (m1, m2))
         want3 = any(S.cube_subset(b.cubes[0], m.cubes[0]) for m in (a, m2))
         want4 = S.cube_subset(b.cubes[0], m1.cubes[0])
-        if (bool(first), bool(second), bool(third), bool(fourth)) != (want1, want2, want3, want4):
+        want6 = S.cube_subset(m2.cubes[0], b.cubes[0])
+        if (bool(fifth), bool(sixth), bool(seventh)) != (want4, want6, want6):
+            ctx.viol("relined:stale_members_after_reassignment", case,
+                     [bool(fifth), bool(sixth), bool(seventh)], [want4, want6, want6])
+        elif (bool(first), bool(second), bool(third), bool(fourth)) != (want1, want2, want3, want4):
             ctx.viol("relined:stale_answer_after_reassignment", case,
                      [bool(first), bool(second), bool(third), bool(fourth)], [want1, want2, want3, want4])
         elif want1 != want2:
